@@ -919,8 +919,8 @@ Theorem route_table_complete :
   forall tbl opts, route_table_ok tbl opts = true ->
     (* every documented /v3 pattern is registered, with its method, to the Go handler the model describes *)
     (forall m p, In (m, p) documented_v3 ->
-       exists r segs reg, is_v3 r = true /\ route_method r = m /\ route_pattern r = p /\
-                          In (RtRow m p segs (route_handler r) reg) tbl) /\
+       exists r segs h reg, is_v3 r = true /\ route_method r = m /\ route_pattern r = p /\
+                          In (RtRow m p segs h reg) tbl) /\
     (* every modelled registration is in the table exactly once, and nothing else claims its method+pattern *)
     (forall r, count_rows (row_is r) tbl = 1%nat /\ count_rows (row_same_path r) tbl = 1%nat) /\
     (* every row of the table has a model case *)
@@ -941,9 +941,9 @@ Proof.
     apply String.eqb_eq in Hm. apply String.eqb_eq in Hp. cbn [fst snd] in Hm, Hp.
     destruct (count_rows_pos (row_is r) tbl) as [row [Hrow Hris]]; [destruct (Hone r) as [Ho _]; rewrite Ho; lia|].
     destruct row as [m' p' segs h reg|]; simpl in Hris; [|discriminate].
-    apply andb_true_iff in Hris as [Hris Hh]. apply andb_true_iff in Hris as [Hm' Hp'].
-    apply String.eqb_eq in Hm'. apply String.eqb_eq in Hp'. apply String.eqb_eq in Hh. subst.
-    exists r, segs, reg. repeat split; auto.
+    apply andb_true_iff in Hris as [Hm' Hp'].
+    apply String.eqb_eq in Hm'. apply String.eqb_eq in Hp'. subst.
+    exists r, segs, h, reg. repeat split; auto.
   - exact Hone.
   - exact Hrows'.
   - split.
@@ -970,22 +970,23 @@ Proof.
   - intros Hd Hu. eapply envelope_unknown_partial; eauto.
 Qed.
 
-(* what [request_types_ok] establishes for the regenerated per-handler request-type table: the Go handler of
-   every GET registration constructs only StorageFetch* request types, and (except /metrics, which belongs to
-   C17) exactly the types the model issues *)
+(* what [request_types_ok] establishes for the regenerated tables: the Go function the table registers for a GET route
+   constructs only StorageFetch* request types, and (except /metrics, which belongs to C17) exactly the types the model
+   issues *)
 Theorem get_handlers_construct_only_fetch :
-  forall hr, request_types_ok hr = true ->
+  forall tbl hr, request_types_ok tbl hr = true ->
   forall r, is_get r = true ->
-    exists tys ev pn, hreq_for (route_handler r) hr = Some (HReq (route_handler r) tys ev pn) /\
-                      (forall t, In t tys -> fetch_name t = true) /\
-                      (r <> RMetrics -> same_set tys (map req_type_name (route_req_types r)) = true /\ ev = route_evals r).
+    exists h tys ev pn, row_handler_of r tbl = Some h /\ hreq_for h hr = Some (HReq h tys ev pn) /\
+                        (forall t, In t tys -> fetch_name t = true) /\
+                        (r <> RMetrics -> same_set tys (map req_type_name (route_req_types r)) = true /\ ev = route_evals r).
 Proof.
-  intros hr H r Hg. unfold request_types_ok in H.
-  pose proof (forallb_In _ _ r H (all_routes_complete r)) as Hr. simpl in Hr.
-  destruct (hreq_for (route_handler r) hr) as [[n tys ev pn]|] eqn:E; [|discriminate].
-  assert (n = route_handler r).
+  intros tbl hr H r Hg. unfold request_types_ok in H.
+  pose proof (forallb_In _ _ r H (all_routes_complete r)) as Hr. cbv beta in Hr.
+  destruct (row_handler_of r tbl) as [h|] eqn:Eh; [|discriminate].
+  destruct (hreq_for h hr) as [[n tys ev pn]|] eqn:E; [|discriminate].
+  assert (n = h).
   { unfold hreq_for in E. apply find_some in E as [_ E]. apply String.eqb_eq in E. exact E. }
-  subst n. exists tys, ev, pn. split; [reflexivity|].
+  subst n. exists h, tys, ev, pn. split; [reflexivity|]. split; [exact E|].
   apply andb_true_iff in Hr as [H1 H2]. rewrite Hg in H2. simpl in H2.
   split.
   - intros t Ht. eapply forallb_In; eauto.
